@@ -138,8 +138,22 @@ def cases(chunk):
 # --------------------------------------------------------------------------
 def _spec_of(case):
     if case["kind"] == "tiny":
-        return G.tiny_spec(case["n"], [tuple(e) for e in case["edges"]], geom=False)
-    return case["g"]
+        spec = G.tiny_spec(case["n"], [tuple(e) for e in case["edges"]], geom=False)
+    else:
+        spec = case["g"]
+    if case["ord"] % 4 == 1:
+        # realistic magnitudes: some weights of millions (metres on a long-distance network) next to weights of a few
+        # units, so that competing walks differ by a tiny fraction of their length
+        spec = dict(spec)
+        edges = []
+        for k, e in enumerate(spec["edges"]):
+            e = list(e)
+            if (k + case["ord"]) % 3 == 0:
+                e[2] = e[2] + 2000000.0
+            edges.append(e)
+        spec["edges"] = edges
+        spec["map_scale"] = True
+    return spec
 
 
 def _cut_classes(cut, ds):
@@ -326,6 +340,38 @@ def run_case(case, ctx):
             if w:
                 w["call_index"] = i
                 return bad(w)
+    # derived object: a sub-network extracted from this network (it re-uses the parent's node and edge objects) is
+    # queried, then the parent again; each must answer for ITS graph
+    if n >= 2 and case["ord"] % 3 == 2:
+        hr = random.Random(case["ord"] + 7)
+        s0 = hr.randrange(n)
+        cutv = hr.choice([d for d in ds] + [1e300]) + 0.25
+        sub = M.call(net.sub_network, ids[s0], cutv, "TOPOLOGIC", False)
+        if not M.is_raised(sub):
+            V = [v for v in range(n) if D[s0][v] != G.INF and D[s0][v] <= cutv]
+            sub_spec = {"n": n, "pos": spec.get("pos"), "edges": [e for e in spec["edges"] if e[0] in V and e[1] in V]}
+            Dsub = G.floyd_warshall(n, G.arcs(sub_spec))
+            Vsub = sorted({e[0] for e in sub_spec["edges"]} | {e[1] for e in sub_spec["edges"]})   # nodes the sub-network holds
+            pairs = [(a, b) for a in Vsub for b in Vsub]
+            hr.shuffle(pairs)
+            for (a, b) in pairs[:12]:
+                r = M.call(sub.shortest_distance, ids[a], ids[b])
+                ctx.monitor("sub_network.pair_vs_floyd_warshall")
+                d = Dsub[a][b]
+                ok = (not M.is_raised(r)) and isinstance(r, (int, float)) and ((r < 0) if d == G.INF else (r >= 0 and G.close(r, d)))
+                if not ok:
+                    return bad({"what": "distance on a sub-network (extracted from this network, sharing its node objects) "
+                                        "is not the minimum over the permitted walks of the sub-network", "source_of_extraction": ids[s0],
+                                "cut": cutv, "s": ids[a], "t": ids[b], "got": r, "true_distance_in_sub_network": d})
+                a2, b2 = hr.randrange(n), hr.randrange(n)
+                r = M.call(net.shortest_distance, ids[a2], ids[b2])
+                d = D[a2][b2]
+                ok = (not M.is_raised(r)) and isinstance(r, (int, float)) and ((r < 0) if d == G.INF else (r >= 0 and G.close(r, d)))
+                if not ok:
+                    return bad({"what": "distance on the parent network, asked between requests on a sub-network extracted "
+                                        "from it, is not the minimum over permitted walks", "s": ids[a2], "t": ids[b2],
+                                "got": r, "true_distance": d})
+            cls.add("sub_network_queried")
     # prepare / prepared_shortest_distance on fresh networks (DISTANCES accumulates by design)
     for cut in prep:
         net2, ids2, nodes2, _e2 = G.build_network(spec)
